@@ -1,6 +1,7 @@
 package main
 
 import (
+	"go/token"
 	"go/types"
 	"strings"
 
@@ -469,4 +470,167 @@ func (c *Ctx) reachFuncs(fn *ssa.Function) map[*ssa.Function]bool {
 		}
 	}
 	return seen
+}
+
+// beginFlag: the bool parameter of the enclosing function that decides whether
+// this Begin opens an update transaction (Begin(update) in a tx-scope helper).
+func (c *Ctx) beginFlag(call ssa.CallInstruction) *ssa.Parameter {
+	if c.beginKind(call) == "" {
+		return nil
+	}
+	args := call.Common().Args
+	var a ssa.Value
+	if call.Common().IsInvoke() {
+		a = args[0]
+	} else {
+		a = args[len(args)-1]
+	}
+	p, ok := a.(*ssa.Parameter)
+	if !ok || p.Parent() != call.Parent() {
+		return nil
+	}
+	return p
+}
+
+// txBodies: closures (or named functions) passed as the func(tx) argument of a
+// tx-scope helper, i.e. a function that opens a transaction and calls one of
+// its func-typed parameters with the transaction. Returned with the call site.
+type txBody struct {
+	Fn     *ssa.Function // the body
+	Helper *ssa.Function
+	Site   ssa.CallInstruction
+	Kind   string // r | w, resolved at the call site when the helper takes a flag
+}
+
+func (c *Ctx) txScopeHelpers() map[*ssa.Function]int {
+	out := map[*ssa.Function]int{}
+	for _, fn := range c.LibFuncs {
+		if c.returnsStoreTx(fn) {
+			continue
+		}
+		var tx ssa.Value
+		allCalls(fn, func(call ssa.CallInstruction) {
+			if c.beginKind(call) == "" {
+				return
+			}
+			if cl, ok := call.(*ssa.Call); ok {
+				if cl.Common().Signature().Results().Len() == 1 {
+					tx = cl
+				} else if vs := resultValues(cl, 0); len(vs) > 0 {
+					tx = vs[0]
+				}
+			}
+		})
+		if tx == nil {
+			continue
+		}
+		allCalls(fn, func(call ssa.CallInstruction) {
+			cc := call.Common()
+			if cc.IsInvoke() || staticCallee(call) != nil {
+				return
+			}
+			p, ok := cc.Value.(*ssa.Parameter)
+			if !ok {
+				return
+			}
+			for _, a := range cc.Args {
+				if a == tx || sameOrigin(a, tx) {
+					out[fn] = paramIndex(fn, p)
+				}
+			}
+		})
+	}
+	return out
+}
+
+func (c *Ctx) txBodies() []txBody {
+	helpers := c.txScopeHelpers()
+	var out []txBody
+	for _, fn := range c.LibFuncs {
+		allCalls(fn, func(call ssa.CallInstruction) {
+			g := staticCallee(call)
+			if g == nil {
+				return
+			}
+			g = c.declared(g)
+			pi, ok := helpers[g]
+			if !ok || pi >= len(call.Common().Args) {
+				return
+			}
+			body := closureFn(call.Common().Args[pi])
+			if body == nil {
+				for _, o := range origins(call.Common().Args[pi]) {
+					if f := closureFn(o); f != nil {
+						body = f
+					}
+				}
+			}
+			if body == nil || !c.IsLib(body) {
+				return
+			}
+			kind := "w"
+			// the helper's Begin flag, resolved at this site
+			allCalls(g, func(b ssa.CallInstruction) {
+				if k := c.beginKind(b); k != "" {
+					kind = k
+					if fp := c.beginFlag(b); fp != nil {
+						fi := paramIndex(g, fp)
+						if fi >= 0 && fi < len(call.Common().Args) {
+							if bv, ok := constBool(call.Common().Args[fi]); ok && !bv {
+								kind = "r"
+							} else {
+								kind = "w"
+							}
+						}
+					}
+				}
+			})
+			out = append(out, txBody{Fn: body, Helper: g, Site: call, Kind: kind})
+		})
+	}
+	return out
+}
+
+// liveBlocksUnder: blocks of fn reachable when the bool parameters in env have
+// the given values (edges of `if param` contradicting env are cut).
+func liveBlocksUnder(fn *ssa.Function, env map[*ssa.Parameter]bool) map[*ssa.BasicBlock]bool {
+	live := map[*ssa.BasicBlock]bool{}
+	if len(fn.Blocks) == 0 {
+		return live
+	}
+	stack := []*ssa.BasicBlock{fn.Blocks[0]}
+	live[fn.Blocks[0]] = true
+	for len(stack) > 0 {
+		b := stack[len(stack)-1]
+		stack = stack[:len(stack)-1]
+		var cut = -1
+		if len(b.Instrs) > 0 {
+			if iff, ok := b.Instrs[len(b.Instrs)-1].(*ssa.If); ok {
+				cond := iff.Cond
+				neg := false
+				if u, ok := cond.(*ssa.UnOp); ok && u.Op == token.NOT {
+					cond, neg = u.X, true
+				}
+				if p, ok := cond.(*ssa.Parameter); ok {
+					if v, bound := env[p]; bound {
+						if v != neg {
+							cut = 1 // condition true: false edge dead
+						} else {
+							cut = 0
+						}
+					}
+				}
+			}
+		}
+		for i, s := range b.Succs {
+			if i == cut {
+				continue
+			}
+			if !live[s] {
+				live[s] = true
+				stack = append(stack, s)
+			}
+		}
+	}
+	return live
 }
